@@ -3,7 +3,7 @@
 import ast
 
 from ..report import rule
-from .. import norm, cfg as cfgmod, guards
+from .. import pm, norm, cfg as cfgmod, guards
 from ..model import AnalysisError
 from .common import calls_of, find_calls, returns_of, is_abstract_body, bind_args
 
@@ -77,7 +77,9 @@ def c19_r1(ctx):
     ctx.ob(af, ok, "every state (len(term), e) with e <= k is final (distance <= k accepted)")
     # prefix: exact transitions for i < prefix
     pl = [n for n in ast.walk(af.node) if isinstance(n, ast.For) and norm.canon(n.iter) in ("xrange(prefix)", "range(prefix)")]
-    okp = bool(pl) and any(norm.canon(c.args[2]) == "((1 + i), 0)" for c in norm.calls_in(pl[0]) if norm.call_name(c) == "add_transition" and len(c.args) == 3)
+    okp = bool(pl) and isinstance(pl[0].target, ast.Name) and any(
+        norm.canon(c.args[0]) == "(%s, 0)" % pl[0].target.id and norm.canon(c.args[2]) == "((1 + %s), 0)" % pl[0].target.id
+        for c in norm.calls_in(pl[0]) if norm.call_name(c) == "add_transition" and len(c.args) == 3)
     rest = [n for n in ast.walk(af.node) if isinstance(n, ast.For) and norm.canon(n.iter) in ("xrange(prefix, len(term))", "range(prefix, len(term))")]
     ctx.ob(af, okp and bool(rest), "the first `prefix` characters must match exactly; edits start after them")
     tw = prog.method("reading.IndexReader", "terms_within", inherited=False)
@@ -85,8 +87,14 @@ def c19_r1(ctx):
     loops = [n for n in ast.walk(tw.node) if isinstance(n, ast.For)]
     ok = len(loops) == 1 and norm.canon(loops[0].iter) == "self.expand_prefix(fieldname, text[:prefix])"
     ctx.ob(tw, ok, "brute force enumerates exactly the terms sharing text[:prefix]")
-    tests = [norm.canon(n.test) for n in ast.walk(tw.node) if isinstance(n, ast.If)]
-    ctx.ob(tw, "(k <= maxdist)" in tests, "brute force accepts distance <= maxdist", detail=str(tests))
+    TA = pm.Alpha(tw)
+    dcalls = [c for c in norm.calls_in(tw.node) if norm.call_name(c) == "distance"]
+    kdefs = [st for st in ast.walk(tw.node) if isinstance(st, ast.Assign) and st.value in dcalls and isinstance(st.targets[0], ast.Name)]
+    if len(kdefs) == 1:
+        TA.eq(kdefs[0].targets[0], "k")
+    tests = [n.test for n in ast.walk(tw.node) if isinstance(n, ast.If)]
+    ctx.ob(tw, len(kdefs) == 1 and any(TA.eq(t, "k <= maxdist") for t in tests), "brute force accepts distance <= maxdist",
+           detail=str([TA.text(t) for t in tests]))
     # every enumerated term reaches the distance computation (no pre-filter)
     g = cfgmod.cfg_of(tw)
     fornode = [n for n in g.nodes if n.kind == "for"]
@@ -102,10 +110,9 @@ def c19_r1(ctx):
                 bad = [st] + p
     ctx.ob(tw, bool(fornode) and bad is None, "every term of the expansion is measured with distance() (no shortcut filter before it)",
            path=cfgmod.path_text(bad) if bad else None)
-    dargs = [[norm.canon(a) for a in c.args] + ["%s=%s" % (k.arg, norm.canon(k.value)) for k in c.keywords]
-             for c in norm.calls_in(tw.node) if norm.call_name(c) == "distance"]
-    ctx.ob(tw, dargs == [["fieldobj.from_bytes(btext)", "text", "limit=maxdist"]] or dargs == [["word", "text", "limit=maxdist"]],
-           "distance(decoded term, text, limit=maxdist)", detail=str(dargs))
+    lv = loops[0].target.id if len(loops) == 1 and isinstance(loops[0].target, ast.Name) else "?"
+    ctx.ob(tw, len(dcalls) == 1 and norm.deep_canon(dcalls[0], tw.node) == "distance(self.schema[fieldname].from_bytes(%s), text, limit=maxdist)" % lv,
+           "distance(decoded term, text, limit=maxdist)", detail=str([norm.deep_canon(c, tw.node) for c in dcalls]))
     # multi-segment readers use the brute-force path, single segments the automaton
     mr = prog.cls("reading.MultiReader")
     ctx.ob(mr, "terms_within" not in mr.methods, "MultiReader inherits the base (brute-force) terms_within", loc=mr.loc)
@@ -121,6 +128,10 @@ def c19_r2(ctx):
     f = prog.method("spelling.Corrector", "suggest", inherited=False)
     ctx.saw(f)
     fa = guards.Facts(f)
+    SA = pm.Alpha(f)
+    for lp in ast.walk(f.node):
+        if isinstance(lp, ast.For) and "_suggestions" in norm.deep_canon(lp.iter, f.node) and isinstance(lp.target, ast.Name):
+            SA.eq(lp.target, "item")
     pushes = []
     for n in fa.g.nodes:
         for frag in cfgmod.node_exprs(n):
@@ -134,13 +145,15 @@ def c19_r2(ctx):
         ctx.ob(f, excl, "%s(...) happens only for a suggestion different from the queried text" % norm.call_name(c),
                detail="no dominating test excludes the queried word itself", loc=ctx.nodeloc(f, c))
         if norm.call_name(c) == "heapreplace":
-            ok = ("T", "(heap[0] < item)") in facts
+            ok = SA.eq(c, "heapreplace(heap, item)") and SA.fact(facts, "T", "heap[0] < item")
             ctx.ob(f, ok, "heapreplace only for item > heap[0]", detail="facts: %s" % sorted(facts), loc=ctx.nodeloc(f, c))
         else:
-            ok = ("T", "(len(heap) < limit)") in facts
+            ok = SA.eq(c, "heappush(heap, item)") and SA.fact(facts, "T", "len(heap) < limit")
             ctx.ob(f, ok, "heappush only while the heap holds fewer than `limit` items", loc=ctx.nodeloc(f, c))
     srt = [c for c in norm.calls_in(f.node) if norm.call_name(c) == "sorted"]
-    keyok = any(k.arg == "key" and isinstance(k.value, ast.Lambda) and norm.canon(k.value.body) == "((0 - x[0]), x[1])" for c in srt for k in c.keywords)
+    keyok = any(k.arg == "key" and isinstance(k.value, ast.Lambda) and len(k.value.args.args) == 1 and
+                norm.canon(k.value.body) in ("((0 - {0}[0]), {0}[1])".format(k.value.args.args[0].arg), "((-{0}[0]), {0}[1])".format(k.value.args.args[0].arg))
+                for c in srt for k in c.keywords)
     ctx.ob(f, keyok, "result sorted by (0 - score, word)")
 
 
@@ -164,13 +177,19 @@ def c19_r3(ctx):
             score = v.elts[0] if isinstance(v, ast.Tuple) and v.elts else v
             e = norm.inline_defs(score, f.node)
             names = norm.names_in(e)
-            # loop variables of enclosing loops whose range depends on maxdist are per-candidate distances
+            # per-candidate distances: loop variables of enclosing range(...maxdist...) loops (one pass per distance),
+            # locals bound from a distance(...) call, and tuple-unpacked loop targets next to the suggestion
             loopvars = set()
             for lp in ast.walk(f.node):
-                if isinstance(lp, ast.For) and any(x is y for x in ast.walk(lp)) and isinstance(lp.target, ast.Name):
-                    loopvars.add(lp.target.id)
-            dist_like = [n for n in names if n in loopvars and n not in ("sug", "word")] + \
-                [n for n in names if n in ("dist", "k", "distance", "d")]
+                if isinstance(lp, ast.For) and any(x is y for x in ast.walk(lp)):
+                    if isinstance(lp.target, ast.Name) and isinstance(lp.iter, ast.Call) and norm.call_name(lp.iter) in ("range", "xrange") \
+                            and "maxdist" in norm.names_in(lp.iter):
+                        loopvars.add(lp.target.id)
+            for st in ast.walk(f.node):
+                if isinstance(st, ast.Assign) and isinstance(st.targets[0], ast.Name) and isinstance(st.value, ast.Call) and \
+                        norm.call_name(st.value) == "distance":
+                    loopvars.add(st.targets[0].id)
+            dist_like = [n for n in names if n in loopvars]
             calls = [norm.call_name(c) for c in norm.calls_in(e)]
             uses_dist = bool(dist_like) or "distance" in calls
             ctx.ob(f, uses_dist, "yielded score depends on the candidate's distance",
